@@ -94,7 +94,9 @@ class Builder:
         fb.setupCharacterMap(self.cmap)
         fb.setupGlyf(self.glyphs)
         fb.setupHorizontalMetrics({n: (self.adv[n], 0) for n in self.order})
-        fb.setupHorizontalHeader(ascent=ASC, descent=DESC)
+        # a third-party font's hhea line box need not be its typographic one (the em box maximum_color scales artwork by)
+        hd = getattr(self, "hhea_delta", (0, 0))
+        fb.setupHorizontalHeader(ascent=ASC + hd[0], descent=DESC - hd[1])
         fb.setupNameTable({"familyName": "Third", "styleName": "Regular"})
         fb.setupOS2(sTypoAscender=ASC, sTypoDescender=DESC, sTypoLineGap=0, fsSelection=0x80)
         fb.setupPost()
